@@ -310,6 +310,7 @@ impl Ctx {
             for i in 0..n {
                 run_one(i as u64);
             }
+            self.max(&format!("stream_wall_ms:{}", stream), t0.elapsed().as_millis() as u64);
             return;
         }
         std::thread::scope(|sc| {
